@@ -354,6 +354,9 @@ async def _interp(run: Run, sdef: dict, ctx: Context, ev: Any, rn: int) -> Any:
                                      "got": None if got is None else [e.uid for e in got],
                                      "got_tys": None if got is None else [ET.TY_ID[type(e)] for e in got]}))
             if got is None:
+                if len(act) > 4 and act[4] and rn < act[4][1]:
+                    # a body that raises when its collection is still incomplete: collect result and failure in ONE result list
+                    raise ET.Boom(f"e{act[4][2]}")
                 return None
             run.__dict__.setdefault("_last_collected", {})[uid] = [e.uid for e in got]
             run.trace.steps.append(("collected", name, uid, rn, asyncio.get_event_loop().time(),
